@@ -32,7 +32,8 @@ from ..perutil import addm, fmt_date, parse_date
 
 UNIT_IDX = {"weekday": 0, "week": 1, "day": 2, "month": 3, "year": 4, "eternity": 5}
 RULES = ("absent", "dispatch", "divide")
-KINDS = ("num", "int")
+KINDS = ("num", "int", "bool", "date", "str", "enum")
+OPAQUE = ("bool", "date", "str", "enum")
 INT_MODES = ("i", "I", "j", "u")
 FLOAT_MODES = ("f", "F", "g", "t")
 ORDER = {"day": 0, "month": 1, "year": 2}
@@ -70,28 +71,48 @@ def _parse_vec(tok):
 
 def _parse_op(tok):
     f = tok.split("|")
-    if f[0] == "S" and len(f) == 4:
+    if f[0] in ("S", "H") and len(f) == 4:
         p, v = _parse_period(f[1]), _parse_vec(f[3])
-        return None if p is None or v is None else ("S", p, f[2], v)
-    if f[0] in ("G", "A") and len(f) == 2:
+        return None if p is None or v is None else (f[0], p, f[2], v)
+    if f[0] in ("G", "A") and len(f) in (2, 3):
         p = _parse_period(f[1])
-        return None if p is None else (f[0], p)
+        return None if p is None else (f[0], p, f[2] if len(f) == 3 else "p")
     if f == ["K"]:
         return ("K",)
     return None
 
 
+def parse_kind(tok):
+    """`<kind>[:<opt>...]` -> (kind, {"n": bool, "d": bool, "b": bool, "end": date tuple | None}) or None"""
+    f = tok.split(":")
+    if f[0] not in KINDS:
+        return None
+    o = {"n": False, "d": False, "b": False, "end": None}
+    for x in f[1:]:
+        if x in ("n", "d", "b"):
+            o[x] = True
+        elif x.startswith("e"):
+            d = x[1:].split(",")
+            if len(d) != 3 or not all(_INT.match(y) for y in d):
+                return None
+            o["end"] = (int(d[0]), int(d[1]), int(d[2]))
+        else:
+            return None
+    return f[0], o
+
+
 def parse_line(line):
-    """-> (defUnit, rule, kind, count, ops) or None when the line is malformed"""
+    """-> (defUnit, rule, kind, count, ops, opts) or None when the line is malformed"""
     f = line.split()
     if len(f) < 6 or f[0] != "sin":
         return None
-    if f[1] not in UNIT_IDX or f[2] not in RULES or f[3] not in KINDS or not _NAT.match(f[4]):
+    ko = parse_kind(f[3])
+    if f[1] not in UNIT_IDX or f[2] not in RULES or ko is None or not _NAT.match(f[4]):
         return None
     ops = [_parse_op(t) for t in f[5:]]
     if any(o is None for o in ops):
         return None
-    return f[1], f[2], f[3], int(f[4]), ops
+    return f[1], f[2], ko[0], int(f[4]), ops, ko[1]
 
 
 def ptok(p):
@@ -110,26 +131,44 @@ def vtok(v) -> str:
 # the implementation, in-process
 
 _TBS = None
+_ENUM = None
+ENUM_SIZE = 5
+EPOCH_ORD = 719163        # ordinal of 1970-01-01
 
 
 def _tbs():
-    global _TBS
+    global _TBS, _ENUM
     if _TBS is None:
-        from openfisca_core import entities, holders, taxbenefitsystems, variables
-        from openfisca_core.periods import DateUnit
+        from openfisca_core import entities, indexed_enums, taxbenefitsystems
         person = entities.Entity("person", "persons", "", "")
-        tbs = taxbenefitsystems.TaxBenefitSystem([person])
-        helpers = {"divide": holders.set_input_divide_by_period,
-                   "dispatch": holders.set_input_dispatch_by_period, "absent": None}
-        for du in UNIT_IDX:
-            for rule, fn in helpers.items():
-                for kind, vt in (("num", float), ("int", int)):
-                    attrs = dict(value_type=vt, entity=person, definition_period=DateUnit(du))
-                    if fn is not None:
-                        attrs["set_input"] = fn
-                    tbs.add_variable(type(f"{rule}_{du}_{kind}", (variables.Variable,), attrs))
-        _TBS = tbs
+        _TBS = taxbenefitsystems.TaxBenefitSystem([person])
+        _ENUM = indexed_enums.Enum("E5", [(f"m{i}", f"member {i}") for i in range(ENUM_SIZE)])
     return _TBS
+
+
+def _variable(du, rule, kind, opts) -> str:
+    """the variable of this case, declared on demand in the worker's tax-benefit system"""
+    import datetime
+    from openfisca_core import holders, variables
+    from openfisca_core.periods import DateUnit
+    tbs = _tbs()
+    end = opts["end"]
+    name = f"{rule}_{du}_{kind}" + ("_n" if opts["n"] else "") + (f"_e{end[0]}_{end[1]}_{end[2]}" if end else "")
+    if name not in tbs.variables:
+        vt = {"num": float, "int": int, "bool": bool, "date": datetime.date, "str": str, "enum": _ENUM}[kind]
+        attrs = dict(value_type=vt, entity=tbs.person_entity, definition_period=DateUnit(du))
+        if kind == "enum":
+            attrs.update(value_type=__import__("openfisca_core.indexed_enums", fromlist=["Enum"]).Enum,
+                         possible_values=_ENUM, default_value=list(_ENUM)[0])
+        fn = {"divide": holders.set_input_divide_by_period, "dispatch": holders.set_input_dispatch_by_period, "absent": None}[rule]
+        if fn is not None:
+            attrs["set_input"] = fn
+        if end:
+            attrs["end"] = f"{end[0]:04d}-{end[1]:02d}-{end[2]:02d}"
+        tbs.add_variable(type(name, (variables.Variable,), attrs))
+        if opts["n"]:
+            tbs.neutralize_variable(name)
+    return name
 
 
 def _real_period(p):
@@ -137,8 +176,76 @@ def _real_period(p):
     return Period((DateUnit(p[0]), Instant(p[1]), p[2]))
 
 
-def _to_arg(mode, vals):
+def _spelled(p, sp):
+    """the period as the caller writes it: Period object, its text (only when the text denotes the same
+    period), or the bare year as an int"""
+    from openfisca_core import periods
+    P = _real_period(p)
+    if sp == "i" and p[0] == "year" and p[2] == 1 and p[1][1:] == (1, 1) and 1000 <= p[1][0] <= 9999:
+        return p[1][0]
+    if sp == "s":
+        try:
+            txt = str(P)
+            if periods.period(txt) == P:
+                return txt
+        except Exception:
+            pass
+    return P
+
+
+def _expr(x: Fraction) -> str:
+    """an expression string numexpr evaluates to x"""
+    if x.denominator == 1:
+        n = x.numerator
+        if n >= 4 and n % 2 == 0:
+            return f"{n // 2}*2"
+        if n >= 3:
+            return f"{n - 1}+1"
+        return str(n)
+    return repr(float(x))
+
+
+def _item(kind, x: Fraction):
+    import datetime
+    c = int(x)
+    if kind == "bool":
+        return c != 0
+    if kind == "date":
+        return datetime.date.fromordinal(c)
+    if kind == "str":
+        return f"s{c}"
+    return list(_ENUM)[c % ENUM_SIZE]
+
+
+def _to_arg(kind, mode, vals):
     import numpy
+    if mode == "z":                       # items that are no values of the variable's type
+        return [object() for _ in vals] if kind in ("str",) else ["abc"] * len(vals)
+    if kind in OPAQUE:
+        items = [_item(kind, x) for x in vals]
+        if mode == "a":                   # exactly the variable's dtype
+            if kind == "bool":
+                return numpy.array(items, dtype=numpy.bool_)
+            if kind == "date":
+                return numpy.array(items, dtype="datetime64[D]")
+            if kind == "str":
+                return numpy.array(items, dtype=object)
+            return _ENUM.encode(items)
+        if mode == "t":
+            return tuple(items)
+        if mode == "I" and kind in ("bool", "enum"):
+            return numpy.array([int(x) for x in vals], dtype=numpy.int64)
+        if mode == "N" and kind == "enum":
+            return numpy.array([it.name for it in items])
+        if mode == "N" and kind == "date":
+            return [it.isoformat() for it in items]
+        return items
+    if mode in ("s", "x", "X"):           # one expression string / Python scalar / 0-dim array
+        x = vals[0]
+        if mode == "s":
+            return _expr(x)
+        v = int(x) if x.denominator == 1 and kind == "int" else float(x)
+        return v if mode == "x" else numpy.array(v)
     if mode in INT_MODES:
         ints = [int(x) for x in vals]
         if mode == "i":
@@ -156,7 +263,14 @@ def _to_arg(mode, vals):
     return fl
 
 
-def _show_arr(a) -> str:
+def _show_arr(a, kind="num") -> str:
+    import numpy
+    if kind == "date":
+        return ";".join(str(int(x) + EPOCH_ORD) for x in numpy.asarray(a).astype("datetime64[D]").astype("int64"))
+    if kind == "str":
+        return ";".join(str(x)[1:] if str(x)[:1] == "s" and str(x)[1:].isdigit() else "?" + str(x).encode().hex() for x in a)
+    if kind == "enum":
+        return ";".join(str(int(x)) for x in numpy.asarray(a))
     return ";".join(rtok(Fraction(float(x))) for x in a)
 
 
@@ -165,65 +279,100 @@ def _snapshot_arg(arg):
     import numpy
     if isinstance(arg, numpy.ndarray):
         return ("ndarray", str(arg.dtype), arg.shape, arg.tolist())
-    return (type(arg).__name__, None, None, list(arg))
+    if isinstance(arg, (list, tuple)):
+        return (type(arg).__name__, None, None, list(arg))
+    return (type(arg).__name__, None, None, arg)
 
 
 def _key(p):
     return (UNIT_IDX[p[0]], p[1][0], p[1][1], p[1][2], p[2])
 
 
+def _build_through_builder(name, count, sets):
+    """the leading inputs given at once, as a situation document, to SimulationBuilder (buffered, then
+    consumed by `finalize_variables_init`)"""
+    from openfisca_core import simulations
+    persons = {}
+    for i in range(count):
+        persons[f"p{i}"] = {name: {str(_real_period(op[1])): (float(op[3][i]) if op[3][i].denominator != 1 else int(op[3][i]))
+                                   for op in sets}}
+    return simulations.SimulationBuilder().build_from_entities(_tbs(), {"persons": persons})
+
+
 def impl(case: Case) -> str:
     parsed = parse_line(case.line)
     if parsed is None:
         return "BAD"
-    du, rule, kind, count, ops = parsed
+    du, rule, kind, count, ops, opts = parsed
+    import shutil
     from openfisca_core import simulations
-    sim = simulations.SimulationBuilder().build_default_simulation(_tbs(), count)
-    name = f"{rule}_{du}_{kind}"
+    name = _variable(du, rule, kind, opts)
     out = []
+    sim = None
+    start = 0
+    if opts["b"]:
+        while start < len(ops) and ops[start][0] == "S":
+            start += 1
+        try:
+            sim = _build_through_builder(name, count, ops[:start])
+            out += ["ok"] * start
+        except Exception:
+            sim = None
+            out += ["ERR"] * start
+    if sim is None:
+        sim = simulations.SimulationBuilder().build_default_simulation(_tbs(), count)
+    if opts["d"]:                              # every array goes to the disk storage
+        from openfisca_core import experimental
+        sim.memory_config = experimental.MemoryConfig(max_memory_occupation=0)
     objects = {}          # the caller's own objects, by number (`<mode>@<k>`)
-    for op in ops:
-        if op[0] == "S":
-            mode, _, obj = op[2].partition("@")
-            if obj and obj in objects:
-                arg = objects[obj]             # the very object passed before, as it is now
+    try:
+        for op in ops[start:]:
+            if op[0] in ("S", "H"):
+                mode, _, sp = op[2].partition("~")
+                mode, _, obj = mode.partition("@")
+                if obj and obj in objects:
+                    arg = objects[obj]             # the very object passed before, as it is now
+                else:
+                    arg = _to_arg(kind, mode, op[3])
+                    if obj:
+                        objects[obj] = arg
+                snap = _snapshot_arg(arg)
+                period = _spelled(op[1], sp or "p")
+                try:
+                    if op[0] == "S":
+                        sim.set_input(name, period, arg)
+                    else:
+                        sim.get_holder(name).set_input(period, arg)
+                    ans = "ok"
+                except Exception:
+                    ans = "ERR"
+                if _snapshot_arg(arg) != snap:     # an argument is an input, not scratch space
+                    ans += "!" + (_show_arr(arg, kind) if mode != "z" else "changed")
+                out.append(ans)
+            elif op[0] == "G":
+                try:
+                    a = sim.get_array(name, _spelled(op[1], op[2]))
+                    out.append("none" if a is None else _show_arr(a, kind))
+                except Exception:
+                    out.append("ERR")
+            elif op[0] == "A":
+                try:
+                    a = sim.calculate_add(name, _spelled(op[1], op[2]))
+                except Exception:
+                    out.append("ERR")
+                    continue
+                out.append("empty" if isinstance(a, int) else _show_arr(a, kind))
             else:
-                arg = _to_arg(mode, op[3])
-                if obj:
-                    objects[obj] = arg
-            snap = _snapshot_arg(arg)
-            period = _real_period(op[1])
-            try:
-                sim.set_input(name, period, arg)
-                ans = "ok"
-            except Exception:
-                ans = "ERR"
-            if _snapshot_arg(arg) != snap:     # an argument is an input, not scratch space
-                ans += "!" + _show_arr(arg)
-            out.append(ans)
-        elif op[0] == "G":
-            period = _real_period(op[1])
-            try:
-                a = sim.get_array(name, period)
-                out.append("none" if a is None else _show_arr(a))
-            except Exception:
-                out.append("ERR")
-        elif op[0] == "A":
-            period = _real_period(op[1])
-            try:
-                a = sim.calculate_add(name, period)
-            except Exception:
-                out.append("ERR")
-                continue
-            out.append("empty" if isinstance(a, int) else _show_arr(a))
-        else:
-            holder = sim.get_holder(name)
-            items = []
-            for k in holder.get_known_periods():
-                p = (str(k[0].value if hasattr(k[0], "value") else k[0]), tuple(k[1]), k[2])
-                items.append((_key(p), ptok(p) + "=" + _show_arr(holder.get_array(k))))
-            items.sort()
-            out.append("[" + "&".join(x for _, x in items) + "]")
+                holder = sim.get_holder(name)
+                items = []
+                for k in sim.get_known_periods(name):
+                    pp = (str(k[0].value if hasattr(k[0], "value") else k[0]), tuple(k[1]), k[2])
+                    items.append((_key(pp), ptok(pp) + "=" + _show_arr(holder.get_array(k), kind)))
+                items.sort()
+                out.append("[" + "&".join(x for _, x in items) + "]")
+    finally:
+        if opts["d"] and getattr(sim, "_data_storage_dir", None):
+            shutil.rmtree(sim._data_storage_dir, ignore_errors=True)
     return " ".join(out)
 
 
@@ -305,14 +454,25 @@ def oracle(case: Case, out: str):
     parsed = parse_line(case.line)
     if parsed is None:
         return None if out == "BAD" else ("malformed-accepted", f"malformed line answered {out[:60]}")
-    du, rule, kind, count, ops = parsed
+    du, rule, kind, count, ops, opts = parsed
     if du not in ORDER or rule not in ("dispatch", "divide"):
         return None
+    if kind in OPAQUE and rule != "dispatch":
+        return None           # "amounts" are numbers
     answers = out.split(" ")
     if len(answers) != len(ops):
         return ("protocol", f"{len(answers)} answers for {len(ops)} operations")
     state = {}            # store as last observed (fresh holder: empty); None = not observed
     promised = {}         # long period -> amount accepted by the divide rule
+    if opts["b"] and rule == "divide" and kind == "num" and not opts["n"]:
+        # inputs consumed by the builder in one go: no snapshot in between, but every accepted amount must
+        # still be what the sum over its period returns
+        for op, ans in zip(ops, answers):
+            if op[0] != "S":
+                break
+            if ans == "ok" and tiles(op[1], du) is not None and len(op[3]) == count and not (
+                    opts["end"] and tuple(op[1][1]) > tuple(opts["end"])):
+                promised[ptok(op[1])] = (op[3], False)
     for idx, (op, ans) in enumerate(zip(ops, answers)):
         if op[0] == "K":
             state = _parse_snapshot(ans)
@@ -331,9 +491,9 @@ def oracle(case: Case, out: str):
             if ans != "ERR":
                 state = None      # unknown pieces were cached with the default
             continue
-        # S
-        _, p, mode, amount = op
-        mode = mode.partition("@")[0]
+        # S (Simulation.set_input) / H (Holder.set_input)
+        entry, p, mode, amount = op
+        mode = mode.partition("~")[0].partition("@")[0]
         ans, _, mutated = ans.partition("!")
         if mutated:
             return ("caller-array-mutated", f"the caller's own {mode}-object passed to set_input on {ptok(p)} held {vtok(amount)} "
@@ -342,8 +502,12 @@ def oracle(case: Case, out: str):
         after = _parse_snapshot(answers[idx + 1]) if idx + 1 < len(ops) and ops[idx + 1][0] == "K" else None
         state = after if after is not None else (before if ans == "ERR" else None)
         subs = tiles(p, du)
-        if subs is None or len(amount) != count or before is None:
+        if subs is None or len(amount) != count or before is None or mode == "z":
             continue
+        if opts["n"]:
+            continue              # a neutralised variable ignores inputs: not a variable the statement speaks of
+        if opts["end"] and entry == "S" and tuple(p[1]) > tuple(opts["end"]):
+            continue              # the variable no longer exists when the period starts: the input is ignored
         if kind == "int" and not _is_integral(amount):
             continue
         toks = [ptok(q) for q in subs]
@@ -412,10 +576,10 @@ def nontrivial(case: Case, out: str) -> bool:
     parsed = parse_line(case.line)
     if parsed is None:
         return False
-    du, rule, kind, count, ops = parsed
+    du, rule, kind, count, ops, opts = parsed
     answers = out.split(" ")
     for op, ans in zip(ops, answers):
-        if op[0] == "S" and ans.partition("!")[0] == "ok" and (op[1][0] != du or op[1][2] != 1):
+        if op[0] in ("S", "H") and ans.partition("!")[0] == "ok" and (op[1][0] != du or op[1][2] != 1):
             return True
     return False
 
@@ -513,18 +677,43 @@ def simulate(du, rule, kind, count, calls):
 
 
 def build_line(du, rule, kind, count, steps, claimed=True, tags=()):
+    """`kind` may carry the variable / harness options (`num:n`, `int:e2018,6,30`, `num:d`, `num:b`)"""
     toks = []
     for s in steps:
-        if s[0] == "S":
-            toks.append(f"S|{ptok(s[1])}|{s[2]}|{vtok(s[3])}")
+        if s[0] in ("S", "H"):
+            toks.append(f"{s[0]}|{ptok(s[1])}|{s[2]}|{vtok(s[3])}")
         elif s[0] in ("G", "A"):
-            toks.append(f"{s[0]}|{ptok(s[1])}")
+            toks.append(f"{s[0]}|{ptok(s[1])}" + (f"|{s[2]}" if len(s) > 2 and s[2] != "p" else ""))
         else:
             toks.append("K")
-    modes = sorted({"in:" + s[2].partition("@")[0] for s in steps if s[0] == "S"}
-                   | {"reused-object" for s in steps if s[0] == "S" and "@" in s[2]})
+    sets = [s for s in steps if s[0] in ("S", "H")]
+    modes = ({"in:" + s[2].partition("~")[0].partition("@")[0] for s in sets}
+             | {"reused-object" for s in sets if "@" in s[2]}
+             | {"period-as:" + s[2].partition("~")[2] for s in sets if "~" in s[2]}
+             | {"entry:holder" for s in sets if s[0] == "H"})
+    k, _, o = kind.partition(":")
+    otags = tuple("opt:" + (x if x in ("n", "d", "b") else "end") for x in o.split(":") if x)
     return Case(line=" ".join(["sin", du, rule, kind, str(count), *toks]), claimed=claimed,
-                tags=(du, rule, kind, f"n{count}") + tuple(modes) + tuple(tags))
+                tags=(du, rule, k, f"n{count}") + otags + tuple(sorted(modes)) + tuple(tags))
+
+
+def decorate(rng: random.Random, du, kind, count, steps, entries=True):
+    """the same history through other spellings of the API: periods given as text or int, inputs given to
+    the holder directly, a single entity's value given as a scalar / 0-dim array / expression string"""
+    out = []
+    for s in steps:
+        if s[0] in ("S", "H"):
+            entry = "H" if entries and rng.random() < 0.15 else s[0]
+            mode = s[2]
+            if count == 1 and "@" not in mode and kind in ("num", "int") and rng.random() < 0.2:
+                mode = rng.choice(["s", "x", "X"])
+            sp = rng.choice(["", "", "~s", "~s", "~i"])
+            out.append((entry, s[1], mode + sp, s[3]))
+        elif s[0] in ("G", "A"):
+            out.append((s[0], s[1], rng.choice(["p", "s", "s", "i"])))
+        else:
+            out.append(s)
+    return out
 
 
 def _mode(rng, integral, kind="num"):
@@ -610,7 +799,12 @@ def history(rng: random.Random, tier: str):
         for L in dict.fromkeys(longs):
             steps.append(("A", L))
         steps.append(("K",))
-        out.append(build_line(du, rule, kind, count, steps, tags=tags + [oname]))
+        if rng.random() < 0.5:
+            steps = decorate(rng, du, kind, count, steps)
+        kopt = kind
+        if n <= 40 and rng.random() < 0.06:
+            kopt += ":d"                      # every array forced to the disk storage
+        out.append(build_line(du, rule, kopt, count, steps, tags=tags + [oname]))
     return out
 
 
@@ -664,6 +858,196 @@ def reuse_history(rng: random.Random, tier: str):
     steps.append(("K",))
     return build_line(du, rule, kind, count, steps,
                       tags=(f"{P[0]}>{du}", "reuse", "host-first" if order[0] == periods_[host] else "host-later"))
+
+
+def opaque_history(rng: random.Random):
+    """bool / date / str / enum variables with the dispatch rule: the items themselves are repeated"""
+    du = rng.choice(["day", "month", "month", "year"])
+    kind = rng.choice(OPAQUE)
+    count = rng.choice([1, 2, 3])
+    while True:
+        P = long_period(rng, du, "quick")
+        subs = tiles(P, du)
+        if len(subs) <= 120:
+            break
+    n = len(subs)
+
+    def val():
+        if kind == "bool":
+            return [Fraction(rng.randint(0, 1)) for _ in range(count)]
+        if kind == "date":
+            return [Fraction(rng.choice([730120, 736330, 737484, 693596, rng.randint(700000, 750000)])) for _ in range(count)]
+        if kind == "enum":
+            return [Fraction(rng.randrange(ENUM_SIZE)) for _ in range(count)]
+        return [Fraction(rng.randint(0, 99)) for _ in range(count)]
+
+    def mode():
+        return rng.choice({"bool": ["l", "a", "t", "I", "l"], "date": ["l", "a", "N", "t"], "str": ["l", "a", "t"],
+                           "enum": ["l", "a", "N", "I", "t"]}[kind])
+
+    k = rng.choice([0, 1, 1, 2, n // 2, n])
+    calls = [(q, val()) for q in rng.sample(subs, min(k, n))]
+    longs = [P] + ([related_period(rng, du, P, subs)] if rng.random() < 0.4 else [])
+    calls += [(L, val()) for L in longs]
+    if rng.random() < 0.4:
+        rng.shuffle(calls)
+    steps = []
+    for q, v in calls:
+        steps.append(("S", q, mode(), v))
+        steps.append(("K",))
+    steps.append(("G", subs[rng.randrange(n)]))
+    if rng.random() < 0.5:
+        steps = decorate(rng, du, kind, count, steps)
+    return build_line(du, "dispatch" if rng.random() < 0.9 else "absent", kind, count, steps, tags=("opaque", f"{P[0]}>{du}"))
+
+
+def end_history(rng: random.Random):
+    """a variable with an `end`: inputs that start after it are ignored by Simulation.set_input (not by
+    Holder.set_input), inputs that start before it are spread as usual, also over the pieces past the end"""
+    du = rng.choice(["day", "month", "month", "year"])
+    rule = "divide" if rng.random() < 0.6 else "dispatch"
+    count = rng.choice([1, 2])
+    while True:
+        P = long_period(rng, du, "quick")
+        subs = tiles(P, du)
+        if len(subs) <= 120 and P[1][0] > 1000:
+            break
+    n = len(subs)
+    where = rng.choice(["before", "first-day", "inside", "inside", "last-day", "after"])
+    lo = dt.date(*P[1])
+    hi = dt.date(*addm_t(subs[-1][1], du, 1)) - dt.timedelta(days=1)
+    e = {"before": lo - dt.timedelta(days=rng.choice([1, 1, 40])), "first-day": lo, "last-day": hi,
+         "inside": lo + dt.timedelta(days=rng.randint(0, (hi - lo).days)), "after": hi + dt.timedelta(days=rng.choice([1, 400]))}[where]
+    kind = f"num:e{e.year},{e.month},{e.day}"
+    pre = rng.sample(subs, min(n, rng.choice([0, 1, 2])))
+    steps = []
+    known = 0
+    ksum = [Fraction(0)] * count
+    for q in pre:
+        v = [Fraction(rng.randint(1, 9)) for _ in range(count)]
+        entry = "H" if rng.random() < 0.3 else "S"
+        steps += [(entry, q, _mode(rng, True), v), ("K",)]
+        if entry == "H" or dt.date(*q[1]) <= e:          # else ignored
+            known += 1
+            ksum = [a + b for a, b in zip(ksum, v)]
+    unk = n - known
+    amt = [ksum[i] + unk * Fraction(rng.randint(0, 12)) for i in range(count)] if rule == "divide" else \
+          [Fraction(rng.randint(1, 9)) for _ in range(count)]
+    entry = "H" if rng.random() < 0.25 else "S"
+    steps += [(entry, P, _mode(rng, True), amt), ("K",), ("A", P), ("K",)]
+    if rng.random() < 0.5:
+        steps = decorate(rng, du, "num", count, steps, entries=False)
+    return build_line(du, rule, kind, count, steps, tags=("end", "end:" + where))
+
+
+def neutral_history(rng: random.Random):
+    """a neutralised variable ignores every input and answers its default (correspondence only)"""
+    du = rng.choice(["day", "month", "year"])
+    rule = rng.choice(["divide", "dispatch", "absent"])
+    count = rng.choice([1, 2])
+    P = {"day": ("month", (2020, 2, 1), 1), "month": ("year", (2018, 3, 1), 1), "year": ("year", (2018, 1, 1), 2)}[du]
+    q = tiles(P, du)[rng.randrange(len(tiles(P, du)))]
+    v = [Fraction(rng.randint(1, 50)) for _ in range(count)]
+    steps = [("S", q, _mode(rng, True), v), ("K",), (rng.choice(["S", "H"]), P, _mode(rng, True), v), ("K",), ("G", q), ("A", P), ("K",),
+             ("S", ("eternity", (-1, -1, -1), -1), "f", v), ("S", P, "z", v), ("K",)]
+    return build_line(du, rule, rng.choice(["num", "int"]) + ":n", count, steps, tags=("neutralised",))
+
+
+def _builder_key(p):
+    w = {"day": 100, "month": 200, "year": 300}[p[0]]
+    return (len(tiles(p, "day")), w)
+
+
+def builder_history(rng: random.Random):
+    """the inputs of a situation document, buffered by SimulationBuilder and consumed by
+    `finalize_variables_init` (shortest period first): consistent inputs only, written in that order"""
+    du = rng.choice(["day", "month", "month", "year"])
+    rule = "divide" if rng.random() < 0.7 else "dispatch"
+    count = rng.choice([1, 2, 3])
+    while True:
+        P = long_period(rng, du, "quick")
+        subs = tiles(P, du)
+        if len(subs) <= 60 and 1000 <= P[1][0] <= 9000:
+            break
+    n = len(subs)
+    pre = rng.sample(subs, min(n, rng.choice([0, 1, 2, 3])))
+    calls = [(q, [Fraction(rng.randint(0, 40)) for _ in range(count)]) for q in pre]
+    longs = {P}
+    if rng.random() < 0.5:
+        longs.add(related_period(rng, du, P, subs))
+    for L in sorted(longs, key=_builder_key):
+        calls.sort(key=lambda c: _builder_key(c[0]))
+        sim = simulate(du, rule, "num", count, calls)
+        if sim is None:
+            break
+        st, _ = sim
+        toks = [ptok(q) for q in tiles(L, du)]
+        unknown = [t for t in toks if t not in st]
+        ksum = [sum((st[t][i] for t in toks if t in st), Fraction(0)) for i in range(count)]
+        if rule == "dispatch":
+            amt = [Fraction(rng.randint(1, 40)) for _ in range(count)]
+        else:
+            amt = [ksum[i] + len(unknown) * Fraction(rng.randint(0, 24), rng.choice([1, 1, 2])) for i in range(count)]
+        calls.append((L, amt))
+    calls.sort(key=lambda c: _builder_key(c[0]))           # Python's sort is stable, like the builder's
+    steps = [("S", q, "f", v) for q, v in calls] + [("K",)] + [("A", L) for L in sorted(longs, key=_builder_key)] + [("K",)]
+    e = ""
+    if rng.random() < 0.2:
+        x = dt.date(*subs[rng.randrange(n)][1]) - dt.timedelta(days=1)
+        if x.year >= 1000 and not pre:
+            e = f":e{x.year},{x.month},{x.day}"      # then the inputs that start after it are dropped by the builder too
+    return build_line(du, rule, "num:b" + e, count, steps, tags=("builder",))
+
+
+def garbage_history(rng: random.Random):
+    """items that are no values of the variable's type, scalars for several entities: refused by `_to_array`"""
+    du = rng.choice(["day", "month", "year"])
+    rule = rng.choice(["divide", "dispatch", "absent"])
+    kind = rng.choice(["num", "int", "num", "bool", "date", "enum"])
+    count = rng.choice([1, 2, 3])
+    P = {"day": ("month", (2019, 2, 1), 1), "month": ("year", (2018, 1, 1), 1), "year": ("year", (2018, 1, 1), 2)}[du]
+    if rule == "absent":
+        P = tiles(P, du)[0]
+    one = [Fraction(rng.randint(0, 1) if kind == "bool" else 730120 if kind == "date" else rng.randint(0, 4))]
+    full = one * count
+    m = "f" if kind in ("num", "int") else "l"
+    steps = [("S", P, "z", full), ("K",), ("H", P, "z~s", full), ("K",)]
+    if kind in ("num", "int"):
+        steps += [("S", P, rng.choice(["s", "x", "X"]), one), ("K",)]         # refused unless there is one entity
+    steps += [("S", P, m, full), ("K",), ("S", P, "z", full), ("K",)]
+    return build_line(du, rule, kind, count, steps, tags=("garbage",))
+
+
+def week_family_history(rng: random.Random):
+    """not claimed (the statement is about day / month / year variables): week and weekday variables given
+    week, month and year periods, also across ISO-year boundaries and for months that are not whole weeks"""
+    du = rng.choice(["week", "weekday"])
+    rule = rng.choice(["divide", "dispatch"])
+    count = rng.choice([1, 2])
+    y = rng.choice([2015, 2018, 2020, 2021, 2026])
+    c = rng.random()
+    if c < 0.4:
+        d = dt.date(y, rng.choice([1, 12, 12, 6]), rng.choice([1, 20, 28]))
+        d -= dt.timedelta(days=d.weekday())
+        P = ("week", (d.year, d.month, d.day), rng.choice([1, 2, 3, 5, 53]))
+    elif c < 0.7:
+        P = ("month", (y, rng.choice([1, 2, 2, 12]), 1), rng.choice([1, 1, 2]))
+    elif c < 0.85:
+        P = ("year", (y, 1, 1), 1)
+    else:
+        d = dt.date(y, 12, 29)
+        P = ("weekday" if du == "weekday" else "day", (d.year, d.month, d.day), rng.choice([3, 7, 10]))
+    lo = dt.date(*P[1])
+    hi = addm(lo, 12 * P[2]) if P[0] == "year" else addm(lo, P[2]) if P[0] == "month" else \
+        lo + dt.timedelta(days=(7 if P[0] == "week" else 1) * P[2])
+    pieces = -(-(hi - lo).days // 7) if du == "week" else (hi - lo).days
+    v = [pieces * Fraction(rng.randint(0, 12)) for _ in range(count)]
+    q = (du, P[1], 1)
+    steps = []
+    if rng.random() < 0.4:
+        steps += [("S", q, "f", [Fraction(0)] * count), ("K",)]
+    steps += [("S", P, "f", v), ("K",), ("A", P), ("K",)]
+    return build_line(du, rule, "num", count, steps, claimed=False, tags=("unclaimed", "week-family", f"{P[0]}>{du}"))
 
 
 def addm_t(s, du, k):
@@ -737,6 +1121,15 @@ def generate(rng: random.Random, tier: str):
         out += history(rng, tier)
     for _ in range(n // 5):
         out.append(reuse_history(rng, tier))
+    for _ in range(n // 10):
+        out.append(opaque_history(rng))
+    for _ in range(n // 12):
+        out.append(end_history(rng))
+        out.append(builder_history(rng))
+    for _ in range(n // 40):
+        out.append(neutral_history(rng))
+        out.append(garbage_history(rng))
+        out.append(week_family_history(rng))
     for _ in range(n // 12):
         out.append(unclaimed_history(rng))
     for line in MALFORMED:
@@ -814,7 +1207,7 @@ def neighbours(case: Case):
     parsed = parse_line(case.line)
     if parsed is None:
         return []
-    du, rule, kind, count, ops = parsed
+    du, rule, kind, count, ops, opts = parsed
     out = []
     for shift, grow in ((1, 0), (-1, 0), (0, 1)):
         steps = []
